@@ -5,6 +5,7 @@ Float model of the face-area computation of the rotation grids (C04), **modelled
   (`border_full_rank_points` is the input; `scipy.linalg.svd` is external),
 * `molgri/space/utils.py`  `sort_points_on_sphere_ccw`, `_get_alpha_with_spherical_cosine_law`,
   `exact_area_of_spherical_polygon`, `dist_on_sphere`, `angle_between_vectors`, `normalise_vectors`.
+  Code as of the repairs a2316f0 (angles from tangent vectors, F13) and 35f2358 (rank tolerance 1e-9, F14).
 
 Import-free; IEEE doubles (`Float`).  No theorem is stated about this file: the kernel cannot see through
 `Float.acos/cos/sin`.  It extends the correspondence check to the area code; the truth of the areas is checked by
@@ -39,8 +40,22 @@ def distOnSphere (u v : V3) : Float := angleBetween u v * norm u
 /-- `np.round(x, 7)`. -/
 def round7 (x : Float) : Float := Float.round (x * 10000000.0) / 10000000.0
 
-/-- `_get_alpha_with_spherical_cosine_law(A, B, C)`: the angle at `A` of the spherical triangle `ABC`. -/
+def smul (c : Float) (u : V3) : V3 := (c * u.1, c * u.2.1, c * u.2.2)
+
+/-- `_get_alpha_with_spherical_cosine_law(A, B, C)`: the angle at `A` of the spherical triangle `ABC`.
+    Code as it is now (repair a2316f0 of finding F13): angle between the tangent vectors at `A`,
+    `u = (B - A) - ((B - A)·A) A`, `w = (C - A) - ((C - A)·A) A`, `alpha = arctan2(|u × w|, u·w)`. -/
 def alphaLaw (A B C : V3) : Float :=
+  let A := normalise A
+  let B := normalise B
+  let C := normalise C
+  let u := sub (sub B A) (smul (dot (sub B A) A) A)
+  let w := sub (sub C A) (smul (dot (sub C A) A) A)
+  Float.atan2 (norm (cross u w)) (dot u w)
+
+/-- Pre-repair variant (finding F13): spherical cosine law with the cosine rounded to 7 decimals.  For a tiny face
+    the Girard sum built from it can be negative (`AssertionError: Area cannot be negative!`). -/
+def alphaLawRounded (A B C : V3) : Float :=
   let A := normalise A
   let B := normalise B
   let C := normalise C
@@ -89,9 +104,16 @@ def girardArea (vs : List V3) : Except String Float :=
 /-- The tail of `_calculate_borders` in dimension 4. -/
 def borderArea (projected : List V3) : Except String Float := girardArea (sortCcw projected)
 
-/-- `_calculate_borders` from the rank assertion on: `assert np.linalg.matrix_rank(shared_vertices) == dim - 1`
-    (`rank` is the external numpy result), then the area of the projected polygon. -/
-def borderAreaChecked (rank dim : Nat) (projected : List V3) : Except String Float :=
-  if rank = dim - 1 then borderArea projected else throw "AssertionError"
+/-- `np.linalg.matrix_rank(M, tol)`: the number of singular values above `tol` (the singular values are the
+    external numpy result). -/
+def rankTol (sing : List Float) (tol : Float) : Nat := (sing.filter fun s => s > tol).length
+
+/-- The explicit tolerance of the rank assertion (repair 35f2358 of finding F14). -/
+def rankTolerance : Float := 1e-9
+
+/-- `_calculate_borders` from the rank assertion on:
+    `assert np.linalg.matrix_rank(shared_vertices, tol=1e-9) == dim - 1`, then the area of the projected polygon. -/
+def borderAreaChecked (sing : List Float) (dim : Nat) (projected : List V3) : Except String Float :=
+  if rankTol sing rankTolerance = dim - 1 then borderArea projected else throw "AssertionError"
 
 end Molgri.FaceArea
